@@ -194,6 +194,12 @@ def perturb(seq, spec0, p):
                         fname = later['new']
                     if later['kind'] == 'DeleteModel':
                         gone = True
+                    # ... or that a later ChangeField of the same evolution makes
+                    # nullable again (folded into the AddField/ChangeField by the
+                    # documented optimisation: the column never is NOT NULL)
+                    if later['kind'] == 'ChangeField' and later['name'] == fname and \
+                            later['attrs'].get('null') is True:
+                        gone = True
             if nonnull and gone:
                 return seq, k + ':nonnull_then_deleted'
             return seq, k + (':nonnull' if nonnull else ':nullable')
